@@ -380,13 +380,20 @@ func lightGen(t *rapid.T, depth int, kinds []string, label string) Light {
 	case "mesh":
 		l.Tris = meshGen(t, label+".mesh")
 	case "joined":
-		n := rapid.IntRange(1, 4).Draw(t, label+".n")
+		n := rapid.IntRange(1, 5).Draw(t, label+".n")
 		sub := []string{"sphere", "cylinder", "mesh"}
 		if depth > 0 {
 			sub = append(sub, "joined")
 		}
 		for i := 0; i < n; i++ {
 			l.Parts = append(l.Parts, lightGen(t, depth-1, sub, fmt.Sprintf("%s.part%d", label, i)))
+		}
+		// a member that is switched off (emission zero) stays in the list, anywhere but first: it is never chosen
+		// and the others keep their shares
+		if n >= 2 && rapid.IntRange(0, 2).Draw(t, label+".dark") == 0 {
+			if k := rapid.IntRange(1, n-1).Draw(t, label+".darkidx"); l.Parts[k].Kind != "joined" {
+				l.Parts[k].Emission = kit.V3{}
+			}
 		}
 		l.Emission = kit.V3{}
 	}
